@@ -418,6 +418,15 @@ func (e *Enc) callExternal(ci ssa.CallInstruction, c *ssa.CallCommon, name strin
 	// ---- errors / fmt
 	case "fmt.Errorf", "errors.New":
 		return []Term{e.nonNilError()}, nil
+	case "(*log/slog.Logger).With", "(*log/slog.Logger).WithGroup", "log/slog.New", "log/slog.Default":
+		// documented: these return a (new) logger, never nil
+		rs := e.freshResults(sig)
+		if len(rs) == 1 {
+			e.sc.Assert(Implies(e.curGuard, Not(Eq(rs[0], IntLit(0)))))
+			alloc := e.lookup(e.cur, "alloc", SInt)
+			e.sc.Assert(Implies(e.curGuard, App(SBool, "<=", rs[0], alloc)))
+		}
+		return rs, nil
 	case "errors.Join":
 		// nil exactly when every joined error is nil (documented behaviour); the elements are read from the argument slice
 		r := e.fresh("joined", SIface)
